@@ -157,7 +157,8 @@ theorem Inv.addArea {L : Live} {ever : List AreaT} {r r' : Rec} (h : Inv L ever 
              kindsR := ?_, kindsO := ?_, disjoint := hdisj,
              membersSound := ?_, membersComplete := ?_, sectionsSound := ?_, sectionsComplete := ?_,
              defsSound := ?_, defsComplete := ?_, regionKeys := ?_, regionPtr := ?_,
-             cover := eff.cover (by rw [f.members, f.sections]; exact c.cover) }
+             cover := eff.cover (by rw [f.members, f.sections]; exact c.cover),
+             defsSub := eff.defsSub (by rw [f.members, f.defs]; exact c.defsSub) }
     · intro g; rw [hgenes, c.genesLive]; simp only [Live.step]; cases hk : a.kind <;> rfl
     · rw [hregions, c.regionsEq]; simp only [Live.step]; cases hk : a.kind <;> simp [hk]
     · rw [eff.protos, f.protos, c.protosEq]; simp only [Live.step]; cases hk : a.kind <;> simp [hk]
